@@ -184,6 +184,7 @@ func init() {
 				}
 				// per-metric counts through GET /samples/
 				var smp map[string]struct {
+					Total        float64 `json:"total"`
 					ScrapedTotal float64 `json:"scrapedTotal"`
 					MetricsTotal map[string]struct {
 						Total   float64 `json:"total"`
@@ -195,6 +196,9 @@ func init() {
 					continue
 				}
 				js := smp[job]
+				if int(js.Total) != total {
+					viol("C14:samples-total", "per-metric", fmt.Sprintf("[%s] /samples/ total %v, the payload has %d samples (the per-metric totals add up to it)", prog.name, js.Total, total), cs)
+				}
 				if int(js.ScrapedTotal) != kept {
 					viol("C14:samples-kept", "per-metric", fmt.Sprintf("[%s] /samples/ scrapedTotal %v, expected %d", prog.name, js.ScrapedTotal, kept), cs)
 				}
